@@ -13,7 +13,7 @@ _qid = [0]
 
 def _fresh_bound(prefix: str, sort: z3.SortRef) -> z3.ExprRef:
     _qid[0] += 1
-    return z3.Const(f"{prefix}?{_qid[0]}", sort)
+    return z3.Const(f"{prefix}%{_qid[0]}", sort)
 
 
 def forall_str(body: Callable[[Any], Any]) -> Any:
